@@ -22,8 +22,12 @@ import numpy as np
 
 from lib import core, gen
 from props import c12
+from props import c07_stage2
 
 EXTRACTORS = ["Notation", "Elab"]
+# Props/C07Stage2.lean: the shorthands that live at stage 2/3 (ellipsis = repetition, number = fresh axis, scalar = tuple,
+# anonymous = named ellipsis), proved on the C02 solving model; tied by the stream of props/c07_stage2.py
+EXTRA_PROPS = ["C07Stage2"]
 
 FAMILY_OPS = {
     "id": ["id"],
@@ -1048,6 +1052,9 @@ def run(ctx):
             part = triples[k:k + 2000]
             check_structural(ctx, [(f, d, kd, real_parse_op(f, d, kd)) for f, d, kd in part], "stream", disagreements, mode_diffs)
 
+    # ---- stage-2/3 shorthands: Lean transformations vs einx's long forms, real solve_* short vs long (props/c07_stage2.py)
+    c07_stage2.run_stream(ctx)
+
     # ---- search: metamorphic pairs on the real code
     per = 20 if quick else 500
     if ctx.broken:
@@ -1149,6 +1156,8 @@ def replay(ctx, path):
         o = outcome(r["op"], r["description"], [np.asarray(a) for a in r["args"]], {})
         print("replay: the call", "still returns a value" if "exc" not in o else f"raises {o['exc']} now")
         return 0 if "exc" in o else 1
+    if r.get("stream") == "stage2":
+        return c07_stage2.replay_record(r)
     if "short" not in r:
         print("replay: nothing to re-run for this record")
         return 0
